@@ -1,4 +1,5 @@
 import RedisVerif.Model.NMap
+import RedisVerif.Model.Redis
 
 /-
   M7/Shards — model of the sharding layer `ShardedActorState`.
@@ -65,6 +66,9 @@ inductive R1
   | int (i : Int)
   | bulk (b : Bytes)
   | err (code : Nat)
+  /-- a reply of the M7 reference executor, carried verbatim (`Model/Shards7.lean`: the sharding
+      model instantiated with `Model.Redis`; the small executor `ShardsStr` never produces it) -/
+  | ext (r : Redis.Reply)
   deriving DecidableEq, Repr
 
 inductive Reply
